@@ -10,7 +10,7 @@ const RULE: &str = "every runtime object (containers incl. named-only ones, valu
 every reference corpus story, of every corpus source compiled by this compiler, and of compiled generated \
 programs (deep unnamed nesting, labels, stitches, functions), enumerated through the content-audit hook. Per \
 object: looking its reported path up from the root returns that very object without approximation; \
-parse(text(path)) == path with an equal hash. Per ordered pair (i, j) of distinct objects (all pairs for \
+parse(text(path)) == path with an equal hash. Per ordered pair (i, j) of distinct objects the two paths compare unequal (each denotes its own object), and (all pairs for \
 stories < 120 objects, otherwise pairs sampled by a tape, biased to neighbours): the relative path i->j \
 round-trips through text (equal, still relative, equal hash), resolves from i to j without approximation, \
 path(i) + relative == path(j), and the compact path string resolves to j. Non-trivial = object at depth >= 3 \
@@ -104,7 +104,9 @@ pub fn exec(case: &J, acc: &mut Acc) -> Result<(), Fail> {
         if rel.relative_text.contains('^') {
             acc.nontrivial(shash ^ fnv(&format!("{}>{}", audit[*i].path, audit[*j].path)));
         }
-        let bad = if !rel.reparse_eq {
+        let bad = if rel.paths_equal {
+            Some(("distinct-objects-equal-paths", "two different objects have paths that compare equal"))
+        } else if !rel.reparse_eq {
             Some(("relative-path-text-roundtrip", "parse(text(rel)) != rel"))
         } else if !rel.reparse_relative_kept {
             Some(("relative-path-text-roundtrip", "a relative path parsed back as absolute"))
